@@ -655,7 +655,7 @@ impl Monitors {
         let max_ack_idx = contig - 1 + if fin_counts { 1 } else { 0 };
         // what the endpoint must have (a FIN only once it arrived in order)
         let must_ack_idx = contig - 1 + if fin_counts && self.fin_in_order_seen { 1 } else { 0 };
-        let deliver2 = matches!(act, Some(Act::Deliver2(..)));
+        let deliver2 = matches!(act, Some(Act::Deliver2(..) | Act::Deliver3(..)));
         self.prev_adv_wnd = self.last_adv_wnd;
         for e in &rec.emitted {
             if e.hdr.ptype == 4 {
@@ -776,6 +776,19 @@ impl Monitors {
                     if let Some(a) = self.last_ack_nr {
                         let ai = idx_of(a).min(contig - 1);
                         let acked_bytes = if ai >= 0 { w.peer_off_of((ai + 1) as usize) } else { 0 };
+                        // the peer's FIN counts too: once it is acknowledged (it arrived in order) and every byte
+                        // before it has been read, the reader is owed the end of the stream
+                        if let Some(fi) = w.peer_fin_idx {
+                            let fin_acked = self.fin_in_order_seen && sdist(a, w.peer_seq_of(fi as i64)) >= 0;
+                            if fin_acked && w.read == w.peer_off_of(fi) && w.done.is_none() && w.cfg.peer_respects_window {
+                                v.push(f(
+                                    "C04",
+                                    "ack-honesty",
+                                    "ack/acknowledged-fin-not-delivered-as-end-of-stream",
+                                    format!("the endpoint acknowledged the peer's FIN (seq {}), the reader has read all {} bytes before it and poll_read is Pending instead of reporting the end of the stream", w.peer_seq_of(fi as i64), w.read),
+                                ));
+                            }
+                        }
                         if acked_bytes > w.read && w.done.is_none() {
                             v.push(f(
                                 "C04",
@@ -1067,7 +1080,7 @@ impl Monitors {
             }
             self.last_peer_ack = Some((h.ack, h.wnd));
         }
-        if matches!(act, Some(Act::Deliver2(..))) {
+        if matches!(act, Some(Act::Deliver2(..) | Act::Deliver3(..))) {
             fast_due = false; // aggregated processing of a burst: the per-packet rule is judged on single deliveries
         }
         if fast_due {
@@ -1194,7 +1207,7 @@ impl Monitors {
                         let evidence = self.dup_acks >= 3 || self.sack_dups >= 1 || ob.recovery_phase != 0 || oa.recovery_phase != 0 || ob.rto_retransmissions > 0 || self.peer_used_sack;
                         let after_probe = !rec.rejected.is_empty() || ob.max_ss != oa.max_ss;
                         let rewound = self.loss_seen && self.episode.is_some();
-                        if !timer_step && !evidence && !after_probe && !rewound && !matches!(act, Some(Act::Deliver2(..))) {
+                        if !timer_step && !evidence && !after_probe && !rewound && !matches!(act, Some(Act::Deliver2(..) | Act::Deliver3(..))) {
                             v.push(f(
                                 "C06",
                                 "rto-timer",
@@ -1339,7 +1352,7 @@ impl Monitors {
         // R3: the peer's in-sequence FIN is acknowledged at once and answered by our own FIN
         // two datagrams in one poll: a FIN that is next in sequence when the step starts must be acknowledged
         // whatever is queued behind (or in front of) it, unless the other packet is a RESET
-        if matches!(act, Some(Act::Deliver2(..))) && !rec.peer_sent.iter().any(|(h, _, _)| h.ptype == 3) {
+        if matches!(act, Some(Act::Deliver2(..) | Act::Deliver3(..))) && !rec.peer_sent.iter().any(|(h, _, _)| h.ptype == 3) {
             if let Some(ob) = &rec.obs_before {
                 let receiving = state_before == "established" || state_before == "fin-wait-1" || state_before == "fin-wait-2";
                 let bug_death = matches!(&rec.d_result, Some(Err(e)) if e.to_lowercase().starts_with("bug"));
@@ -1362,7 +1375,7 @@ impl Monitors {
             }
         }
         for (h, _, _) in &rec.peer_sent {
-            if h.ptype == 1 && !matches!(act, Some(Act::Deliver2(..))) {
+            if h.ptype == 1 && !matches!(act, Some(Act::Deliver2(..) | Act::Deliver3(..))) {
                 // in sequence for the harness AND for the endpoint (a peer that ignores the window may have had
                 // a packet refused: the FIN is then ahead of a gap as far as the endpoint is concerned)
                 let in_seq = matches!(w.peer_fin_idx, Some(fi) if fi == w.peer_in_order())
@@ -1504,7 +1517,7 @@ impl Monitors {
         let transmitted: u64 = self.tx.values().map(|t| t.len as u64).sum();
         let unsent = w.written.saturating_sub(transmitted);
         let sending_state = oa.state == "established" && ob.state == "established";
-        if unsent > 0 && rec.d_polls > 0 && sending_state && w.done.is_none() && rec.rejected.is_empty() && !self.fin_from_peer_seen && !matches!(act, Some(Act::TransportPendingOnce)) && oa.rto_retransmissions == 0 && oa.recovery_phase == 0 && !matches!(act, Some(Act::Deliver2(..))) {
+        if unsent > 0 && rec.d_polls > 0 && sending_state && w.done.is_none() && rec.rejected.is_empty() && !self.fin_from_peer_seen && !matches!(act, Some(Act::TransportPendingOnce)) && oa.rto_retransmissions == 0 && oa.recovery_phase == 0 && !matches!(act, Some(Act::Deliver2(..) | Act::Deliver3(..))) {
             let outstanding: usize = self.tx.values().filter(|t| !t.acked).map(|t| t.len).sum();
             // (while the path search is still running the next segment may be cut as a probe of up to the
             // current ceiling: room for that much is demanded before calling the sender idle)
@@ -1651,7 +1664,7 @@ impl Monitors {
         let receiving = oa.state == "established" || oa.state == "fin-wait-1" || oa.state == "fin-wait-2";
         if receiving && !self.fin_from_peer_seen && w.done.is_none() && w.reader.is_some() && !w.d.is_set() {
             let free = w.cfg.rx_buf.saturating_sub(oa.rx_queue_bytes + oa.rx_ooq_bytes);
-            if self.last_adv_wnd == 0 && free >= oa.mss as usize && oa.timers[2].is_none() && rec.rejected.is_empty() && !matches!(act, Some(Act::TransportPendingOnce)) && !matches!(act, Some(Act::Deliver2(..))) {
+            if self.last_adv_wnd == 0 && free >= oa.mss as usize && oa.timers[2].is_none() && rec.rejected.is_empty() && !matches!(act, Some(Act::TransportPendingOnce)) && !matches!(act, Some(Act::Deliver2(..) | Act::Deliver3(..))) {
                 v.push(f(
                     "C02",
                     "stall",
